@@ -576,3 +576,58 @@ package meta
 //@ func ErrShardingTypeNotEqual
 //@   ensures result != nil
 //@   trusted_assigns nothing
+
+// ================================================================ C15: snapshot (marshal side)
+//@ prop C15
+// A snapshot is the marshalled catalogue: every field of every catalogue struct is read by its marshal function
+// (fields enumerated from the Go type; a field added later must be marshalled or excepted with a reason), an
+// optional sub-record is present in the protobuf exactly when it is present in the catalogue.
+//@ func (*ReplicaClearInfo).marshal
+//@   ensures [nil_iff] (rci == nil) == (result == nil)
+//@   ensures [fields] rci != nil ==> result.NoClearIndexId != nil && deref(result.NoClearIndexId) == rci.NoClearIndexId && len(result.ClearPeers) == len(rci.ClearPeers)
+//@ func (*Data).MarshalBase
+//@   reads_all data except MigrateEvents(marshalled by Data.Marshal), AdminUserExists(derived from Users on restore), ExpandShardsEnable(configuration, not persisted), opsMapMu(lock), OpsMap(incremental-sync bookkeeping, not part of a snapshot), OpsMapMinIndex(incremental-sync bookkeeping), OpsMapMaxIndex(incremental-sync bookkeeping), OpsToMarshalIndex(incremental-sync bookkeeping), UpdateNodeTmpIndexCommandStart(incremental-sync bookkeeping)
+//@ func DatabaseInfo.marshal
+//@   reads_all di
+//@ func (*RetentionPolicyInfo).Marshal
+//@   reads_all rpi
+//@ func (*MeasurementInfo).marshal
+//@   reads_all msti except originName(derived from Name on restore), tagKeysTotal(derived from the schema on restore), InitNumOfShards(read through GetInitNumOfShards)
+//@ func (*ShardGroupInfo).marshal
+//@   reads_all sgi
+//@ func ShardInfo.marshal
+//@   reads_all si
+//@ func ShardOwner.marshal
+//@   reads_all so
+//@ func (*IndexGroupInfo).marshal
+//@   reads_all igi
+//@ func IndexInfo.marshal
+//@   reads_all ii
+//@ func UserInfo.marshal
+//@   reads_all u
+//@ func NodeInfo.marshal
+//@   reads_all ni
+//@ func (*DataNode).marshal
+//@   reads_all n except Index(incremental-sync bookkeeping: per-node ops cursor, not part of a snapshot)
+//@ func (*StreamInfo).Marshal
+//@   reads_all s
+//@ func (*ReplicaGroup).marshal
+//@   reads_all rg
+//@ func SubscriptionInfo.marshal
+//@   reads_all si
+//@ func (*ShardKeyInfo).Marshal
+//@   reads_all ski
+//@ func (*ColStoreInfo).Marshal
+//@   reads_all h
+//@ func (*Options).Marshal
+//@   reads_all mo
+//@ func (*ContinuousQueryInfo).Marshal
+//@   reads_all cqi
+//@ func (*DownSamplePolicyInfo).Marshal
+//@   reads_all d
+//@ func (*MigrateEventInfo).marshal
+//@   reads_all m
+//@ func (*PtInfo).Marshal
+//@   reads_all pi
+//@ func PtOwner.marshal
+//@   reads_all po
